@@ -41,6 +41,12 @@ TABLE = {
     "c08_mark_occupied_row_only.diff": ("contracts.c08", "mark_occupied", None),
     "c14_zero_step_via_variable.diff": ("contracts.c14", "visit_ForStmt", "variable"),
     "c06_enable_integer_bare.diff": ("contracts.c16b", "lower_assign_stmt", "entity.property"),
+    "c14_condition_either_side.diff": ("contracts.c14d", "_is_comparison_expr", "one operator"),
+    "c14_condition_any_signal_name.diff": ("contracts.c14d", "_is_comparison_expr", "leaf"),
+    "c01_outspec_int_value_never_left_type.diff": ("contracts.c14d", "_infer_output_spec_type", "BinaryOp"),
+    "c14_outspec_non_condition_silent.diff": ("contracts.c14d", "_infer_output_spec_type", "NumberLiteral"),
+    "c13_type_access_non_signal.diff": ("contracts.c14d", "resolve_signal_type_access", "x.type"),
+    "c01_simplify_keeps_inner_type.diff": ("contracts.c14d", "_try_simplify_signal_projection", "1 projection"),
     "c14_write_keyed_by_scope.diff": ("contracts.c14c", "infer_expr_type", "m.write(v), v: SignalValue"),
     "c14_write_loop_needs_three.diff": ("contracts.c14c", "infer_expr_type", "m.write(v), v: SignalValue"),
     "c14_write_loop_inner_cell_refused.diff": ("contracts.c14c", "infer_expr_type", "m.write(v), v: SignalValue"),
